@@ -139,6 +139,17 @@ func describe(w *World, ctx sdk.Context, l *Ledger) {
 			w.App.BankKeeper.GetAllBalances(ctx, p.Addr), p.Direct, w.App.BankKeeper.GetSupply(ctx, "gamm/pool/"+fmt.Sprint(p.ID)).Amount)
 	}
 	fmt.Printf("   collector=%s community=%s\n", w.App.BankKeeper.GetAllBalances(ctx, w.Collector), w.App.BankKeeper.GetAllBalances(ctx, w.Community))
+	for i, fa := range w.FeeAccts[1:] {
+		if b := w.App.BankKeeper.GetAllBalances(ctx, fa); !b.IsZero() {
+			fmt.Printf("   txfees account %s=%s\n", feeAcctNames[i+1], b)
+		}
+	}
+	if os.Getenv("VERIF_DEBUG") != "" {
+		for _, d := range []string{"foo", "bar", "baz"} {
+			id, err := w.App.ProtoRevKeeper.GetPoolForDenomPairNoOrder(ctx, "uosmo", d)
+			fmt.Printf("   protorev pool for uosmo/%s: %d %v\n", d, id, err)
+		}
+	}
 }
 
 func runReplay(f *core.Flags, r *core.Result) {
